@@ -135,6 +135,23 @@ def run(ctx):
     bbad = [(q, r) for q, r in zip(bseqs, bres) if r.startswith("ok\t") and r.split("\t")[4] != "date=1,from=1,mime=0" or r == "PANIC"]
     for q, r in bbad:
         unexpl.append(({"name": "message", "value": repr(q)}, "built message does not have exactly one Date and one From field (and no MIME-Version for a raw body): %s" % r.split("\t")[-1]))
+    # fields the library generates or reads itself (Date, Content-Transfer-Encoding), supplied by the caller through header types of his own
+    # with texts the typed readers cannot interpret: every header section still holds each name once, and exactly one Date
+    owd = ["-", "Thu, 1 Oct 2026 12:00:00 +0200", "Thu, 01 Oct 2026 12:00:00 +0000", "yesterday", "", "1 Oct 26 12:00 UT"]
+    owc = ["-", "7BIT", "Base64", "x-uuencode", "7bit", "", "8bit", "quoted-printable "]
+    ol2 = ["msg.own_typed\t%s\t%s\t%s" % (hx(U(d)), hx(U(c)), sh) for d in owd for c in owc for sh in ("raw", "single", "multi")]
+    for line, r in zip(ol2, run_impl(ol2)):
+        ctx.count()
+        if not r.startswith("ok\t"):
+            continue                      # the builder may refuse (e.g. an encoding the body does not fit): nothing is emitted
+        msg = unhx(r.split("\t")[1])
+        sections = [msg.split(b"\r\n\r\n")[0]] + [seg.lstrip(b"\r\n").split(b"\r\n\r\n")[0] for seg in msg.split(b"--BOUNDARY-own-0001\r\n")[1:]]
+        for k, sec in enumerate(sections):
+            names = [l.split(b":")[0].lower() for l in sec.split(b"\r\n") if l and not l.startswith((b" ", b"\t"))]
+            if len(names) != len(set(names)):
+                unexpl.append(({"name": "message", "value": line}, "header section %d holds a name twice: %r" % (k, [n.decode("latin-1") for n in names])))
+        if [l.split(b":")[0].lower() for l in sections[0].split(b"\r\n")].count(b"date") != 1:
+            unexpl.append(({"name": "message", "value": line}, "the built message does not have exactly one Date field"))
     # one field per name, whatever the letter case of later set calls (header map operations)
     hn = ["Subject", "subject", "SUBJECT", "sUBJECT", "X-Priority", "x-priority", "X-priority", "Date", "date", "Message-ID", "Message-Id"]
     ol = []
